@@ -282,7 +282,7 @@ def check_compressors(rep, tier, rng, drv, run):
             l = f"{op} 0 {hexs(x)}"
             labels[l] = lab
             lines.append(l)
-    impl, deaths = CL.run_all(vlib, drv, lines, timeout=1500)
+    impl, deaths = CL.run_all(vlib, drv, lines, timeout=(240 if tier == "quick" else 2400))
     for case, rc, summ in deaths:
         rep.violation(f"compressor: sanitizer report or crash (rc={rc}) on this input: {summ}", {"kind": "comp", "case": case})
     small = [i for i, l in enumerate(lines) if len(l.split()[2]) <= 2 * MODEL_MAX]
@@ -311,7 +311,7 @@ def check_compressors(rep, tier, rng, drv, run):
                     rep.tie_broken(f"model tie: the concrete-hash compressor model does not predict {op}'s bytes: model {mod[i][:80]} / impl {out[:80]}", line[:300])
     # inputs generated in the driver: sizes around every length boundary of the preamble varint, 4 .. 10 MiB
     bl = CL.big_lines(tier)
-    bout, bdeaths = CL.run_all(vlib, drv, bl, timeout=2400)
+    bout, bdeaths = CL.run_all(vlib, drv, bl, timeout=(240 if tier == "quick" else 2400))
     for case, rc, summ in bdeaths:
         rep.violation(f"compressor: sanitizer report or crash (rc={rc}) on this input: {summ}", {"kind": "big", "case": case})
     sizes = sorted({int(l.split()[3]) for l in bl})
@@ -333,6 +333,19 @@ def check_compressors(rep, tier, rng, drv, run):
         n = int(line.split()[3])
         if line.split()[1] == "snappy" and head is not None and mv.get(n) is not None and head[:len(mv[n])] != mv[n]:
             rep.tie_broken(f"snappy_write_varint: the implementation's preamble {head[:5].hex()} differs from the model's {mv[n].hex()} for n = {n}", line)
+    # copy-4 back-references of 16 MiB and more
+    fl = CL.sfar_lines(tier)
+    fo, fdeaths = CL.run_all(vlib, drv, fl, timeout=(240 if tier == "quick" else 2400))
+    for case, rc, summ in fdeaths:
+        rep.violation(f"decompressor: sanitizer report or crash (rc={rc}) on this input: {summ}", {"kind": "sfar", "case": case})
+    for line, out in zip(fl, fo):
+        if out == "FAULT died":
+            continue
+        rep.count(line)
+        for b in CL.judge_sfar(line, out):
+            rep.violation(b, {"kind": "sfar", "case": line, "impl": out})
+        if "lib=1" not in out:
+            rep.tie_broken("libsnappy does not decode the driver-built far-reference block", line)
     # carquet_snappy_get_uncompressed_length: implementation vs format (Python) vs model
     sl = CL.slen_lines(rng, tier)
     so_i, sdeaths = CL.run_all(vlib, drv, sl)
@@ -400,7 +413,13 @@ def replay(path):
         print(json.dumps(j, indent=1)[:4000])
         return 1
     drv = build_driver("h_comp", libs=LIBS)
-    out, rc, err = vlib.run_lines(drv, [case])
+    import subprocess
+    try:
+        out, rc, err = vlib.run_lines(drv, [case], timeout=30)
+    except subprocess.TimeoutExpired:
+        print("case:", case[:300])
+        print("FAILS: no result within 30 s: the call does not terminate or its time is not proportional to the input size")
+        return 1
     print("case:", case[:400])
     print("implementation:", (out[0][:400] if out else None), "rc", rc)
     if err:
@@ -409,6 +428,8 @@ def replay(path):
         return 1
     if case.split()[0] == "big":
         bad = CL.judge_big(case, out[0])[0]
+    elif case.split()[0] == "sfar":
+        bad = CL.judge_sfar(case, out[0])
     elif case.split()[0] == "slen":
         bad = judge_slen(case, out[0])
     elif case.split()[0] in ("sdec", "ldec"):
